@@ -255,6 +255,9 @@ func minLenFromFacts(facts []fact, s ssa.Value) int64 {
 		if isLenOf(be.X, s) {
 			if kk, ok := constInt(be.Y); ok {
 				k, op = kk, be.Op
+			} else if kk, ok := minConstReturn(be.Y); ok && ((be.Op == token.EQL && f.taken) || (be.Op == token.NEQ && !f.taken) || (be.Op == token.GEQ && f.taken) || (be.Op == token.LSS && !f.taken)) {
+				// len(s) == size() where size() returns constants only: at least the smallest
+				k, op = kk, be.Op
 			} else {
 				continue
 			}
@@ -305,6 +308,35 @@ func minLenFromFacts(facts []fact, s ssa.Value) int64 {
 		}
 	}
 	return best
+}
+
+// minConstReturn: v is a call of a repository function with a body all of
+// whose returns give an integer constant (other exits panic); the smallest one.
+func minConstReturn(v ssa.Value) (int64, bool) {
+	call, ok := v.(*ssa.Call)
+	if !ok {
+		return 0, false
+	}
+	callee := call.Call.StaticCallee()
+	if callee == nil || callee.Blocks == nil || callee.Signature.Results().Len() != 1 {
+		return 0, false
+	}
+	best, any := int64(0), false
+	for _, b := range callee.Blocks {
+		ret, ok := b.Instrs[len(b.Instrs)-1].(*ssa.Return)
+		if !ok {
+			continue
+		}
+		k, isC := constInt(ret.Results[0])
+		if !isC {
+			return 0, false
+		}
+		if !any || k < best {
+			best = k
+		}
+		any = true
+	}
+	return best, any
 }
 
 var _ = fmt.Sprint
